@@ -220,7 +220,7 @@ var lexTokens = []string{
 	"$$", "$$ a; b $$", "$tag$", "$tag$ x; $tag$", "$t1$ $$ $t1$", "$1", "$_$;$_$", "$é$ x $é$",
 	"BEGIN", "BEGIN\n", "begin ", "END", "END;", "end", "END\n", "BEGIN ATOMIC ", "BEGIN ATOMIC\n", "begin atomic\n", "xBEGIN ", "BEGINx", " BEGIN ",
 	"CREATE TRIGGER t BEGIN\n", "CREATE FUNCTION f() RETURNS int BEGIN ATOMIC\n", "IF x THEN", "END IF;", "COMMIT", "BEGIN;",
-	"DELIMITER //\n", "DELIMITER ;\n", "delimiter $$\n", "DELIMITER '\n", "DELIMITER ';'\n", "DELIMITER 'a''b'\n", "DELIMITER \n", "DELIMITER", "DELIMITERx", "DELIMITER \\n\n", "//", "//\n", "$$\n",
+	"DELIMITER //\n", "DELIMITER §\n", "delimiter é\n", "DELIMITER 語\n", "§", "§\n", "é", "語", "DELIMITER ;\n", "delimiter $$\n", "DELIMITER '\n", "DELIMITER ';'\n", "DELIMITER 'a''b'\n", "DELIMITER \n", "DELIMITER", "DELIMITERx", "DELIMITER \\n\n", "//", "//\n", "$$\n",
 	"é", "\u00a0", "\u2028", "\xff", "\xc3", "\xe2\x80", "\r\n", "\r", "\v", "\f", "\x00",
 	"-- atlas:delimiter \\n\\n\n", "-- atlas:nolint\n", "-- atlas:delimiter\n", "\n\n",
 }
